@@ -48,6 +48,10 @@ PURE_APPS = {
     "builtins.hex", "time.struct_time", "contextlib.suppress",
 }
 
+# library functions that read a bytes-like argument without keeping or changing it
+PURE_BUFFER_READERS = {"binascii.crc_hqx", "binascii.crc32", "zlib.crc32", "binascii.hexlify", "struct.unpack", "struct.unpack_from", "builtins.int.from_bytes", "builtins.sum",
+                       "builtins.list", "builtins.tuple", "builtins.memoryview", "builtins.hash", "builtins.any", "builtins.all", "builtins.bool"}
+
 # clock-reading calls -> max number of positional args for which the *current* time is read
 CLOCK_READS = {
     "time.time": 0, "time.time_ns": 0, "time.monotonic": 0, "time.strftime": 1, "time.localtime": 0, "time.gmtime": 0,
@@ -104,9 +108,51 @@ def as_const_int(v: Optional[Term]) -> Any:
     return "?"
 
 
+def length_lower_bound(ln: Term) -> Optional[int]:
+    """A lower bound of a length term: constants, sums of lengths (each >= 0), the shorter branch of a choice, and for
+    the length of a byte / text sequence the part whose width does not depend on anything."""
+    if is_c(ln) and isinstance(ln[1], int) and not isinstance(ln[1], bool):
+        return ln[1]
+    if not isinstance(ln, tuple) or not ln:
+        return None
+    if ln[0] == "lin":
+        l_ = Lin.of(ln)
+        if isinstance(l_.const, int) and all(isinstance(q_, int) and q_ > 0 and isinstance(t_, tuple) and t_[:1] in (("len",), ("nparts",)) for t_, q_ in l_.coef.items()):
+            return l_.const
+        return None
+    if ln[0] == "ite" and len(ln) == 4:
+        a_, b_ = length_lower_bound(ln[2]), length_lower_bound(ln[3])
+        return None if a_ is None or b_ is None else min(a_, b_)
+    if ln[0] == "len" and len(ln) == 2 and T.is_seq(ln[1]):
+        tot = 0
+        for a_ in ln[1][2]:
+            if isinstance(a_, tuple) and a_[:1] == ("alt",) and len(a_) == 4 and all(T.is_seq(x_) for x_ in a_[2:]):
+                ws_ = [T.const_width(x_) for x_ in a_[2:]]
+                tot += min(int(w_) for w_ in ws_) if all(w_ is not None for w_ in ws_) else 0
+                continue
+            w_ = T.atom_width(a_)
+            if w_ is not None and w_.is_const():
+                tot += int(w_.const)
+        return tot // 2 if ln[1][1] == "raw" else tot
+    return None
+
+
+def buffer_content(v: Term, st: Any) -> Term:
+    """The current content of a bytearray object (an immutable snapshot); any other value unchanged."""
+    if isinstance(v, tuple) and v[:1] == ("obj",) and st is not None and v[1] in st.heap and st.heap[v[1]].name == "bytearray":
+        return st.heap[v[1]].fields["buf"]
+    return v
+
+
+_BUFFER_WRITERS = {"struct.pack_into", "builtins.bytes", "builtins.len", "builtins.bytearray", "builtins.isinstance", "builtins.type", "builtins.id"}
+
+
 # ---------------------------------------------------------------------------
 def call_ext(I: Any, name: str, args: List[Term], kwargs: Dict[str, Term], st: Any, ctx: Any, node: ast.AST, awaited: bool) -> Term:
     where = ctx.loc(node)
+    if name not in _BUFFER_WRITERS and name in PURE_BUFFER_READERS:
+        # a library function that only reads its byte arguments sees the current content of a bytearray
+        args = [buffer_content(a_, st) for a_ in args]
     # exception classes
     if name in EXC_NAMES or (name.startswith("builtins.") and name.split(".")[1] in __import__("sa.interp", fromlist=["EXC_PARENTS"]).EXC_PARENTS):
         return ("exc", name.split("builtins.")[-1], tuple(args), where, None)
@@ -138,7 +184,10 @@ def call_ext(I: Any, name: str, args: List[Term], kwargs: Dict[str, Term], st: A
         if isinstance(off_, int) and off_ >= 0 and size_ is not None:
             packed = struct_pack(I, [args[0]] + list(args[3:]), st, ctx, node)
             buf_ = ho_.fields["buf"]
-            st.may_raise("struct.error", ("cmp", "<", length(I, buf_, st, ctx, node), c(off_ + size_)), where)
+            ln_ = length(I, buf_, st, ctx, node)
+            lb_ = length_lower_bound(ln_)
+            if lb_ is None or lb_ < off_ + size_:
+                st.may_raise("struct.error", ("cmp", "<", ln_, c(off_ + size_)), where)
             head_ = slice_value(I, buf_, c(0), c(off_), st, ctx, node)
             tail_ = slice_value(I, buf_, c(off_ + size_), None, st, ctx, node)
             if not any(is_top(x) for x in (packed, head_, tail_)):
@@ -1087,6 +1136,8 @@ def _is_datetime_like(v: Term) -> bool:
 
 
 def binop(I: Any, op: ast.operator, a: Term, b: Term, st: Any, ctx: Any, node: ast.AST) -> Term:
+    if isinstance(op, ast.Add):
+        a, b = buffer_content(a, st), buffer_content(b, st)     # bytearray + bytes: a new value with the contents of both
     sa = T.to_seq(a) if _textlike(a) else None
     sb = T.to_seq(b) if _textlike(b) else None
     if isinstance(op, ast.Add) and a[0] in ("obj", "tuple", "clist") and b[0] in ("obj", "tuple", "clist"):
@@ -1880,6 +1931,21 @@ def call_method(I: Any, recv: Term, name: str, args: List[Term], kwargs: Dict[st
             return c(None)
         raise AnalysisError(f"super().{name} not found at {where}")
 
+    if recv[0] == "obj" and recv[1] in st.heap and st.heap[recv[1]].name == "bytearray":
+        ho_b = st.heap[recv[1]]
+        if name == "extend" and len(args) == 1 and not kwargs:
+            more_ = buffer_content(args[0], st)
+            sm_ = T.to_seq(more_) if _textlike(more_) else None
+            sb_ = T.to_seq(ho_b.fields["buf"]) if _textlike(ho_b.fields["buf"]) else None
+            if sm_ is not None and sb_ is not None and sm_[1] in ("raw", "b") and sb_[1] == "raw":
+                ho_b.fields["buf"] = T.concat(sb_, sm_ if sm_[1] == "raw" else sm_)
+                return c(None)
+            ho_b.fields["buf"] = top("bytearray.extend in a form that is not modelled")
+            return c(None)
+        if name in ("hex", "decode", "startswith", "endswith", "count", "find", "index", "copy", "ljust", "rjust", "zfill", "join", "split", "strip", "rstrip", "lstrip"):
+            return call_method(I, ho_b.fields["buf"], name, [buffer_content(a_, st) for a_ in args], kwargs, st, ctx, node, awaited)
+        ho_b.fields["buf"] = top(f"bytearray.{name} is not modelled")
+        return top(f"bytearray.{name} is not modelled")
     s = T.to_seq(recv) if _textlike(recv) else None
     if s is not None:
         r = text_method(I, s, name, args, kwargs, st, ctx, node)
